@@ -29,7 +29,8 @@ RULE = ("8 seed ACLs (flat IOS, IOS grouped by remark prefix, grouped with port_
         "distinct model states; distinct non-trivial = distinct (seed, operation sequence)"
         " Round 4: hand-made AceGroups without group_by (fixed seed + random seeds); platform argument in every documented spelling."
         " Round 5: operations 'adopt' (foreign entry + same-value switch assignment) and delete_shadow(skip=['nc_wildcard']); seed with nc-only and plain covers."
-        " Rounds 6-7: port 0 in a seed list.")
+        " Rounds 6-7: port 0 in a seed list."
+        " Round 8: multi-port entries inserted through the list API.")
 ASSUMPTIONS = ["multi-port neq entries are not in the seeds (C19 owns them)", "items inserted through the list methods are built "
                "by the driver with the ACL's current platform, version and switches", "sort is predicted exactly only when all "
                "top-level keys are distinct and non-zero, otherwise as some permutation of intact blocks",
